@@ -17,8 +17,11 @@ RULE = ('schemas over {int, Optional[int], float, bool, str, SequenceID, List[in
         'single index, iteration}; non-trivial = at least 2 columns of different representation and an operand with '
         '>= 1 row and a program with >= 1 table-producing operation')
 EXHAUSTIVE = {'quick': False, 'thorough': False}
-TIE = ('correspondence: columnar model (m_construct, m_select, m_cat, m_sort_by, m_replace, m_add, m_from_rows, '
-       'm_todict/m_from_dict, m_to_rows) evaluated in Coq against the stored columns, rows and dict keys of the real objects')
+TIE = ('translator+correspondence: translate/gen_c19.py regenerates the decision rules of bnpdataclass.py and '
+       'string_array.py (Gen/C19.v), Bridge/C19.v proves them equal to the rules named in Model/C19.v and that the model '
+       'functions follow them (C19_source_tie, C19_model_follows_rules); correspondence: columnar model (m_construct, '
+       'm_select, m_cat, m_sort_by, m_replace, m_add, m_from_rows, m_todict/m_from_dict, m_to_rows) evaluated in Coq '
+       'against the stored columns, rows and dict keys of the real objects')
 ASSUMPTIONS = ['npstructures RaggedArray and NumPy indexing/concatenation/promotion are modelled at their documented '
                'behaviour (flat data + row lengths; dtype join; int64->float64 rounds to nearest even)',
                'np.argsort (default kind) is NOT assumed stable: for sort_by the correspondence accepts any result with the '
